@@ -4,6 +4,7 @@ import (
 	"bytes"
 	"encoding/json"
 	"fmt"
+	"github.com/dgraph-io/badger/v4"
 	"os"
 	"path/filepath"
 	"sort"
@@ -63,6 +64,10 @@ func CleanupScratch() {
 type HubOpts struct {
 	Dir   string        // reuse directory (reopen) instead of a fresh one
 	Lease time.Duration // full sync lease timeout (0 = hub default 1h)
+	// Age > 0 (fresh directory only): the store is not a young one. Before the hub opens the directory one
+	// unrelated key (outside every index of the hub) is committed at badger version Age, so that the hub's
+	// own commits, and with them everything derived from badger versions (backup cursor), continue from there.
+	Age uint64
 }
 
 func NewHub(o HubOpts) *Hub {
@@ -72,6 +77,9 @@ func NewHub(o HubOpts) *Hub {
 	} else {
 		h.Dir = NewDir("hub")
 		h.owned = true
+		if o.Age > 0 {
+			AgeStore(filepath.Join(h.Dir, "store"), o.Age)
+		}
 	}
 	h.open()
 	return h
@@ -98,6 +106,30 @@ func (h *Hub) open() {
 			panic(err)
 		}
 		h.P = append(h.P, p)
+	}
+}
+
+// AgeStore commits one key the hub never looks at ({0xff,0xff,"verif-age"}) at the given badger version in an
+// empty store directory (badger managed mode). A store opened on it afterwards hands out versions above it.
+func AgeStore(storeLocation string, version uint64) {
+	_ = os.MkdirAll(storeLocation, 0o755)
+	opts := badger.DefaultOptions(storeLocation)
+	opts.Logger = nil
+	opts.MemTableSize = 16 << 20
+	opts.BlockCacheSize = 8 << 20
+	db, err := badger.OpenManaged(opts)
+	if err != nil {
+		panic(fmt.Sprintf("VERIF-INFRA age store: %v", err))
+	}
+	txn := db.NewTransactionAt(version, true)
+	if err = txn.Set(append([]byte{0xff, 0xff}, "verif-age"...), []byte("x")); err == nil {
+		err = txn.CommitAt(version, nil)
+	}
+	if err2 := db.Close(); err == nil {
+		err = err2
+	}
+	if err != nil {
+		panic(fmt.Sprintf("VERIF-INFRA age store: %v", err))
 	}
 }
 
